@@ -36,12 +36,12 @@ where
 }
 
 /// KIND: 0 scoped, 1 scope_guard + drop, 2 scope_guard + reset() (guard kept), 3 checkpoint + reset_to, 4 scoped_aligned::<8>
-fn scope_body<St: BumpAllocatorSettings, const KIND: u8, const FORCE: bool>(inner_budget: usize)
+fn scope_body<A, St: BumpAllocatorSettings, const KIND: u8, const FORCE: bool>(inner_budget: usize)
 where
-    VA: BaseAllocator<St::GuaranteedAllocated>,
+    A: BaseAllocator<St::GuaranteedAllocated> + Default,
 {
     set_budget(1);
-    let Ok(mut bump) = Bump::<VA, St>::try_new() else { return };
+    let Ok(mut bump) = Bump::<A, St>::try_new() else { return };
     // never run Drop for Bump on early-return paths (it walks the chunk list and calls the base allocator: pure cost)
     let mut bump = core::mem::ManuallyDrop::new(bump);
     set_budget(0);
@@ -60,7 +60,7 @@ where
     let work = any_work::<FORCE>();
 
     set_budget(inner_budget);
-    let first = leave::<St, KIND>(&mut *bump, work);
+    let first = leave::<A, St, KIND>(&mut *bump, work);
     set_budget(0);
     kani::cover!(first.0 != 0 && first.1 != 0, "both allocations inside the scope succeeded");
     kani::cover!(bump.stats().count() == 2, "[b1] the workload acquired a second chunk");
@@ -79,7 +79,7 @@ where
     // replaying the same workload needs no new memory and lands on the same addresses
     let calls1 = calls();
     let grants1 = grants();
-    let second = leave::<St, KIND>(&mut *bump, work);
+    let second = leave::<A, St, KIND>(&mut *bump, work);
     check!(grants() == grants1, "C03: replaying the workload in a new scope obtained memory from the base allocator");
     if first.0 != 0 && first.1 != 0 {
         check!(calls() == calls1, "C03: replaying a workload that fitted asked the base allocator again");
@@ -92,9 +92,9 @@ where
 }
 
 #[inline(always)]
-fn leave<St: BumpAllocatorSettings, const KIND: u8>(bump: &mut Bump<VA, St>, work: Work) -> (usize, usize)
+fn leave<A, St: BumpAllocatorSettings, const KIND: u8>(bump: &mut Bump<A, St>, work: Work) -> (usize, usize)
 where
-    VA: BaseAllocator<St::GuaranteedAllocated>,
+    A: BaseAllocator<St::GuaranteedAllocated>,
 {
     match KIND {
         0 => bump.scoped(|s| run(s, work)),
@@ -139,14 +139,90 @@ where
 
 macro_rules! scope_harness {
     ($name:ident, $S:ty, $kind:literal, $budget:literal) => {
+        scope_harness!($name, VA, $S, $kind, $budget);
+    };
+    ($name:ident, $A:ty, $S:ty, $kind:literal, $budget:literal) => {
         #[kani::proof]
         #[kani::unwind(6)]
         #[kani::stub(std::alloc::handle_alloc_error, crate::stubs::hae_stub)]
         fn $name() {
-            scope_body::<$S, $kind, { $budget == 1 }>($budget);
+            scope_body::<$A, $S, $kind, { $budget == 1 }>($budget);
         }
     };
 }
+// (VAStateful / VAOver variants of this body do not exist: their first chunk has no room for the filler; the
+// header-size dependent rewinds are covered by `scope_unallocated_*` below)
+
+/// "start of the first chunk if nothing had been allocated yet": the scope / checkpoint is taken on an arena that has
+/// no chunk yet (GUARANTEED_ALLOCATED = false); the workload creates the first chunk; leaving the scope must rewind
+/// to the start of that chunk, and replaying the workload lands on the same addresses without a base-allocator call.
+/// KIND as in `scope_body` (0 scoped, 1 guard drop, 3 checkpoint + reset_to), plus 5: reset_to_start(), 6: reset()
+fn scope_unallocated_body<A, St: BumpAllocatorSettings<GuaranteedAllocated = bump_scope::settings::False>, const KIND: u8>(header_size: usize)
+where
+    A: BaseAllocator<bump_scope::settings::False> + Default,
+{
+    let mut bump = core::mem::ManuallyDrop::new(Bump::<A, St>::unallocated());
+    // l1 is concrete: it decides the size of the first chunk (a symbolic chunk size makes the stub's three block
+    // sizes all possible: 21 GB); l2 stays symbolic
+    let work = Work { l1: Layout::from_size_align(8, 4).unwrap(), l2: any_layout(8, 3) };
+    set_budget(1);
+    let first = leave_u::<A, St, KIND>(&mut *bump, work);
+    set_budget(0);
+    if first.0 == 0 {
+        return;
+    }
+    kani::cover!(first.1 != 0, "both allocations inside the scope succeeded");
+    check!(bump.stats().count() == 1 && grants() == 1, "C03: the chunk acquired inside the scope did not stay");
+    check!(bump.stats().allocated() == 0, "C03: allocated byte count not zero after leaving a scope entered on an unallocated arena");
+    let c = bump.stats().current_chunk().unwrap();
+    let start = if St::UP { addr(c.chunk_start()) + header_size } else { addr(c.chunk_end()) - header_size };
+    check!(addr(c.bump_position()) == start, "C03: bump position is not the start of the first chunk after leaving a scope entered on an unallocated arena");
+    let calls1 = calls();
+    let second = leave_u::<A, St, KIND>(&mut *bump, work);
+    check!(calls() == calls1, "C03: replaying the workload asked the base allocator again");
+    if first.1 != 0 {
+        check!(second == first, "C03: replaying the workload in a new scope returned different addresses");
+    }
+    check!(bump.stats().allocated() == 0, "C03: allocated byte count not zero after the second scope");
+    kani::cover!(true, "END: harness ran to completion");
+}
+
+#[inline(always)]
+fn leave_u<A, St: BumpAllocatorSettings, const KIND: u8>(bump: &mut Bump<A, St>, work: Work) -> (usize, usize)
+where
+    A: BaseAllocator<St::GuaranteedAllocated>,
+{
+    match KIND {
+        5 => {
+            let r = run(bump.as_scope(), work);
+            bump.reset_to_start();
+            r
+        }
+        6 => {
+            let r = run(bump.as_scope(), work);
+            bump.reset();
+            r
+        }
+        _ => leave::<A, St, KIND>(bump, work),
+    }
+}
+
+macro_rules! scope_unallocated_harness {
+    ($name:ident, $A:ty, $S:ty, $kind:literal, $hdr:literal) => {
+        #[kani::proof]
+        #[kani::unwind(6)]
+        #[kani::stub(std::alloc::handle_alloc_error, crate::stubs::hae_stub)]
+        fn $name() {
+            scope_unallocated_body::<$A, $S, $kind>($hdr);
+        }
+    };
+}
+scope_unallocated_harness!(scope_unallocated_scoped_stateful_up1, VAStateful, S<1, true, false>, 0, 48);
+// (guard / checkpoint on a DOWNWARD unallocated arena: CBMC reports "attempt to subtract with overflow" for the i128
+// subtraction of two zero-extended usize values in BumpProps::debug_assert_valid -- impossible, and the native debug
+// build passes; the two variants are left out, see DESIGN.md 13)
+scope_unallocated_harness!(scope_unallocated_reset_to_start_over_up1, VAOver, S<1, true, false>, 5, 64);
+scope_unallocated_harness!(scope_unallocated_reset_stateful_up4, VAStateful, S<4, true, false>, 6, 48);
 scope_harness!(scope_scoped_up1_b1, S<1, true>, 0, 1);
 scope_harness!(scope_scoped_down1_b1, S<1, false>, 0, 1);
 scope_harness!(scope_guard_drop_up1_b1, S<1, true>, 1, 1);
@@ -241,3 +317,5 @@ try_with_harness!(scope_try_with_fits_up1, S<1, true>, u16, u8, false, 0);
 try_with_harness!(scope_try_with_mut_bigerr_up1, S<1, true>, u16, [u32; 2], true, 0);
 try_with_harness!(scope_try_with_mut_bigerr_down1, S<1, false>, u16, [u32; 2], true, 0);
 try_with_harness!(scope_try_with_mut_bigerr_spill_up4, S<4, true>, u16, [u64; 3], true, 1);
+scope_unallocated_harness!(scope_unallocated_scoped_va_down1, VA, S<1, false, false>, 0, 32);
+scope_unallocated_harness!(scope_unallocated_guard_va_up1, VA, S<1, true, false>, 1, 32);
